@@ -252,7 +252,7 @@ func c12(cx *Ctx, r *ev.Report) {
 	r.Assumptions = append(r.Assumptions, commonAssumptions...)
 	r.Assumptions = append(r.Assumptions, "preconditions of the property: cpu != nil, cpu.Memory != nil, a non-nil MapMemory, ctx != nil", "log.Printf and the context/atomic library functions do not panic")
 	r.Trusted = []string{"golang.org/x/tools/go/ssa v0.29.0", "verif/internal/rules/panics.go (site enumeration and discharge rules)", "verif/internal/rules/dag.go", "summary engine for the unsupported-opcode arms and the request table"}
-	r.Explanation = "Termination: the static call graph below Step is acyclic and every function in it is loop-free, so Step returns after a statically bounded number of actions whenever the callbacks it makes return; Run leaves its loop through 'return nil' on the first Step that executed HALT. No panic: every SSA instruction below Step and Run and in Get/Set/In/Out of DumbMemory, DumbIO and MapMemory that can panic in Go is enumerated and each is discharged by a rule (dominating len comparison on the same slice, dominating nil test on the same access path with no call or aliasing store in between - also across the Step->processInterrupt call -, address-of/fresh object, constant index into a fixed array, index type bounded by the array length, constant divisor, API precondition); data[addr-start] in the overlay is a named exception with its four structural obligations checked. Any interrupt request: all rows of the request table, including empty data and IM outside 0..2, are decided without a panic. Unsupported opcodes: 856 prefixes without an arm are each shown to consume their bytes, log, and change nothing else (PC arithmetic modulo 2^16 covers prefixes cut off at 0xFFFF). Relative to the callback assumption and the stated preconditions."
+	r.Explanation = "Termination: the call graph below Step (calls through function values resolved by what every summary called there) is acyclic and every function in it is loop-free or has loops with a fixed trip count (followed concretely in every summary), so Step returns after a statically bounded number of actions whenever the callbacks it makes return; the HALT instruction sets the halted indication in every state and Run leaves its loop through 'return nil' on the first Step after which it is set. No panic: every SSA instruction below Step and Run and in Get/Set/In/Out of DumbMemory, DumbIO and MapMemory that can panic in Go is enumerated; each is discharged by value - its failing condition, logged by the interpreter under the path predicate, is unsatisfiable in every summary that reaches it (1786 decoder specialisations, the Step rows with the overlay's methods probed, the Run summary, the accessors), or no exhaustive summary reaches it - or else by a rule (dominating len comparison on the same slice, dominating nil test on the same access path with no call or aliasing store in between - also across the Step->processInterrupt call -, address-of/fresh object, constant index into a fixed array, index type bounded by the array length, constant divisor, API precondition); data[addr-start] in the overlay is a named exception with its four structural obligations checked. Any interrupt request: all rows of the request table, including empty data and IM outside 0..2, are decided without a panic. Unsupported opcodes: 856 prefixes without an arm are each shown to consume their bytes, log, and change nothing else (PC arithmetic modulo 2^16 covers prefixes cut off at 0xFFFF). Relative to the callback assumption and the stated preconditions."
 }
 
 func shortFn(f *ssa.Function) string {
